@@ -87,6 +87,8 @@ impl BackendInternal {
         hdr: &VhostUserGpuMsgHeader<GpuBackendReq>,
     ) -> io::Result<V> {
         self.check_state()?;
+        #[cfg(feature = "verif-hooks")]
+        vhost_user::verif::hold("gpu.reply_wait");
         let (reply, body, rfds) = self
             .sock
             .recv_body::<V>()
